@@ -24,6 +24,23 @@ CrossInit ==
                         [] k = 6 -> <<"{% widthratio ", a, " ", b, " 100 %}{% cycle ", a, " ", b, " %}{% with z=", a, " %}{{ z|length }}{% endwith %}">>
                         [] k = 7 -> <<"{% include ", a, " %}">>
                         [] k = 8 -> <<"{% filter ", "join:", b, "|slice:", b, " %}{{ ", a, " }}{% endfilter %}{{ [", a, ", ", b, "]|join:", b, " }}">>)
+\* (family "names") every construct that binds a name x every name the engine or another construct binds or reads x every construct
+\* that reads or rebinds it afterwards, inside the binder's scope
+BindNames == {"forloop", "block", "a", "i", "m", "lm", "true", "x", "nope"}
+Binders(n, v, body) ==
+  << <<"{% with ", n, "=", v, " %}">> \o body \o <<"{% endwith %}">>, <<"{% set ", n, " = ", v, " %}">> \o body, <<"{% for ", n, " in ", v, " %}">> \o body \o <<"{% endfor %}">>,
+     <<"{% for k, ", n, " in ", v, " %}">> \o body \o <<"{% endfor %}">>, <<"{% macro ", n, "(", n, ") %}">> \o body \o <<"{% endmacro %}{{ ", n, "(", v, ") }}{{ ", n, "() }}">>,
+     <<"{% macro mm(", n, "=", v, ") %}">> \o body \o <<"{% endmacro %}{{ mm() }}{{ mm(", n, ") }}">>,
+     <<"{% for q in \"abc\" %}{% cycle ", v, " ", n, " as ", n, " %}">> \o body \o <<"{% endfor %}">>, <<"{% for q in \"abc\" %}{% cycle ", n, " as ", n, " silent %}">> \o body \o <<"{% endfor %}">>,
+     <<"{% widthratio 1 2 ", v, " as ", n, " %}">> \o body, <<"{% import \"/lib\" lm as ", n, " %}">> \o body, <<"{% block ", n, " %}">> \o body \o <<"{% endblock %}">>,
+     <<"{% with w=1 %}{% set ", n, " = ", v, " %}{% endwith %}">> \o body >>
+Users(n) ==
+  << <<"{{ ", n, " }}{{ ", n, ".Counter }}{{ ", n, ".Super }}{{ ", n, "() }}">>, <<"{% for z in \"ab\" %}{{ forloop.Parentloop.Counter }}{{ ", n, " }}{% for y in z %}{{ forloop.Parentloop.Parentloop }}{% endfor %}{% endfor %}">>,
+     <<"{% cycle ", n, " %}{% cycle ", n, " 1 as ", n, " %}{% cycle ", n, " %}">>, <<"{% block bb %}{{ block.Super }}{{ ", n, " }}{% endblock %}">>,
+     <<"{% macro u() %}{{ ", n, " }}{% endmacro %}{{ u() }}{% include \"/inc\" with ", n, "=1 %}">>, <<"{% if ", n, " %}{% ifchanged ", n, " %}c{% endifchanged %}{% endif %}{% firstof ", n, " %}">> >>
+CrossInitNames ==
+  /\ ApiInit /\ steps = 0
+  /\ \E n \in BindNames, v \in {"1", "\"s\"", "rlist", "forloop", "nope"}, b \in 1..12, u \in 1..6 : form = Binders(n, v, Users(n)[u])[b]
 CrossNext == FALSE /\ UNCHANGED <<apiVars, genVars>>
 CrossEmit == PrintT(ToJson([m |-> "PongoApi", toks |-> form]))
 
